@@ -612,7 +612,9 @@ def run(tier, replay=None):
         for d in range(n_datasets):
             n_samples = 3 if d % 2 == 0 else 4
             # dataset 1: a (sample, locus) pair without any read; later ones: two read-level features (+ sometimes no-depth)
-            feats = frozenset() if d == 0 else frozenset({"nodepth"}) if d == 1 else frozenset(
+            # dataset 0: a locus over which NO sample has a read, samples of equal ploidy with different inbreeding coefficients (given in
+            # a per-sample file, lines in another order): what is computed for a read-less sample still is that sample's own
+            feats = frozenset({"nodepth_all"}) if d == 0 else frozenset({"nodepth"}) if d == 1 else frozenset(
                 r.sample(["mates", "indels", "clips", "lowqual"], 2) + (["nodepth"] if r.random() < 0.4 else []))
             # assemble is run twice: default reporting threshold, and a high one (many '.' alleles when a sample is alone)
             hi_thr = ["--haplotype-posterior-threshold", str(r.choice([0.5, 0.8, 0.95]))]
@@ -622,6 +624,13 @@ def run(tier, replay=None):
                                     ploidies=ploidies, max_snvs=4, depth=(5, 16), contig_len=700, features=feats)
             # the second dataset runs with --mcmc-seed 0: a legal seed (0 .. 2^32-1) that a truthiness test would read as
             # "no seed given", leaving every run unseeded so that a sample's calls depend on what was drawn before it
+            inb_args = []
+            if d == 0:
+                vals = ["0.0", "0.4", "0.15", "0.6"]
+                inb_file = synth.write_text(os.path.join(work, f"ds{d}.inbreeding.txt"),
+                                            "".join(f"{s_}\t{vals[i_ % 4]}\n" for i_, s_ in reversed(list(enumerate(ds.samples)))))
+                inb_args = ["--inbreeding", inb_file]
+                chk.count("dataset:per-sample-inbreeding-file+locus-without-reads-in-any-sample")
             seed = ["--mcmc-seed", "0" if d == 1 else str(r.randint(1, 10 ** 6))]
             chk.count("dataset:mcmc-seed=" + ("0" if d == 1 else "random"))
             MCMC = MCMC0 if d == 0 else ["--mcmc-steps", "200", "--mcmc-burn", "100"]      # (higher ploidies: shorter chains)
@@ -637,15 +646,16 @@ def run(tier, replay=None):
                 chk.count(f"dataset:feature:{f_}")
             bam = ds.sample_bam
 
-            def argv_for(prog, sel, hv=None, extra=(), ploidy=None):
+            def argv_for(prog, sel, hv=None, extra=(), ploidy=None, inb=None):
                 bams = [bam[s] for s in sel]
+                inb_used = inb if inb is not None else (inb_args if ploidy is None else [])
                 if prog.startswith("assemble"):
                     a = ["mchap", "assemble", "--bam", *bams, "--ploidy", ploidy or ds.ploidy_file, "--targets", ds.bed,
-                         "--variants", ds.snv_vcf, "--reference", ds.fasta, *MCMC, *seed, *extra,
+                         "--variants", ds.snv_vcf, "--reference", ds.fasta, *MCMC, *seed, *extra, *inb_used,
                          *(hi_thr if prog == "assemble-hi" else []), *report_args]
                 else:
                     a = ["mchap", prog, "--bam", *bams, "--ploidy", ploidy or ds.ploidy_file, "--haplotypes", hv,
-                         *(MCMC + seed if prog == "call" else []), *extra, *report_args]
+                         *(MCMC + seed if prog == "call" else []), *extra, *inb_used, *report_args]
                 return a
 
             # ---- assemble with all samples (also provides the haplotypes for call / call-exact)
@@ -748,7 +758,12 @@ def run(tier, replay=None):
                                              "".join(f"{id_of[s_][0]}\t{ds.ploidy[s_]}\n" for s_ in reversed(S)))
                 for prog in ("call", "call-exact", "assemble"):
                     tag = {**tag0, "prog": prog, "selection": "multi-sample BAM, --read-group-field ID", "ids": id_of}
-                    a = argv_for(prog, S, hv, extra=["--read-group-field", "ID"], ploidy=id_ploidy)
+                    inb_id = None
+                    if inb_args:                     # the per-sample file is keyed by the sample names in use: here the read-group IDs
+                        by_name = dict(l_.split("\t") for l_ in open(inb_args[1]).read().split("\n") if l_)
+                        inb_id = ["--inbreeding", synth.write_text(os.path.join(work, f"ds{d}.inbreeding-by-id.txt"),
+                                                                   "".join(f"{id_of[s_][0]}\t{by_name[s_]}\n" for s_ in S))]
+                    a = argv_for(prog, S, hv, extra=["--read-group-field", "ID"], ploidy=id_ploidy, inb=inb_id)
                     i = a.index("--bam")
                     a[i + 1:i + 1 + len(S)] = [multi]
                     res = run_prog(obs, a, f"{prog} read-group-field ID")
